@@ -32,6 +32,7 @@ pub mod c13;
 pub mod c15;
 pub mod c16;
 pub mod c17;
+pub mod c19;
 pub mod c20;
 pub mod common;
 pub mod progspace;
@@ -54,6 +55,7 @@ pub fn all() -> Vec<Box<dyn Check>> {
         Box::new(c15::C15),
         Box::new(c16::C16),
         Box::new(c17::C17),
+        Box::new(c19::C19),
         Box::new(c20::C20),
     ]
 }
